@@ -372,12 +372,13 @@ def metaPaths (d : Disk) : List Name := d.filterMap (fun e => match e.1 with | .
     (in memory only); `next_batch_id` is raised above every referenced id. -/
 def loadShards (d : Disk) : List Name → Option (List (Name × Shard) × Nat)
   | [] => some ([], 1)
-  | s :: rest =>
-    match readDoc d (.smeta s), loadShards d rest with
+  | f :: rest =>
+    match readDoc d (.smeta f), loadShards d rest with
     | some (.smeta m), some (l, nb) =>
       let nb' := m.batches.foldl (fun a b => max a (b.id + 1)) nb
       let valid := m.batches.filter (fun b => (get d (.batch b.id)).isSome)
-      some ((m.name, { md := { m with batches := valid }, buffer := [] }) :: l, nb')
+      -- `shards.insert(meta.name, …)`: a `HashMap` insert, keyed by the name stored in the document
+      some (sSet l m.name { md := { m with batches := valid }, buffer := [] }, nb')
     | _, _ => none
 
 def referenced (shards : List (Name × Shard)) (id : Nat) : Bool :=
@@ -425,30 +426,51 @@ def loadRelations (d : Disk) : List (Name × Shard) → Option (List (Name × Li
     | some us, some l => some ((s, positive us) :: l)
     | _, _ => none
 
-/-- `StorageEngine::new` on a disk image: `none` = the engine does not open.  The steps are in `trace`. -/
-def openEngine (d : Disk) (ord : List Name := []) : Option World :=
-  let w : World := { disk := d }
-  let w := emit w .persistNewMkdir (.nop 0)
-  let w := emit w .walNewMkdir (.nop 0)
+/-- the world right after `load_shards` (the two mkdirs are `nop`s of the strict FS model) -/
+def loadWorld (d : Disk) (shards : List (Name × Shard)) (nb : Nat) : World :=
+  { mem := { shards := shards, nextBatch := nb }, disk := d,
+    trace := [(.persistNewMkdir, .nop 0), (.walNewMkdir, .nop 0)] }
+
+/-- `cleanup_orphaned_batches` incl. the directory fsync when something was removed -/
+def afterCleanup (w : World) (ps : List Path) : World :=
+  let r := cleanupOrphans w ps
+  if r.2 then emit r.1 .orphansDirsync (.nop 0) else r.1
+
+/-- recovery stage 1 — `FilePersist::new` up to and including `cleanup_orphaned_batches`: directories,
+    `load_shards`, orphan cleanup. -/
+def stageLoad (d : Disk) : Option World :=
   match loadShards d (metaPaths d) with
   | none => none
-  | some (shards, nb) =>
-    let w := { w with mem := { w.mem with shards := shards, nextBatch := nb } }
-    let (w, removed) := cleanupOrphans w (paths d)
-    let w := if removed then emit w .orphansDirsync (.nop 0) else w
-    match readAll w.disk with
+  | some (shards, nb) => some (afterCleanup (loadWorld d shards nb) (paths d))
+
+/-- recovery stage 2 — `replay_wal` and the drain flush of every shard that got entries (`ord`: iteration order). -/
+def stageReplay (w : World) (ord : List Name) : Option World :=
+  match readAll w.disk with
+  | none => none
+  | some entries =>
+    let w := { w with mem := { w.mem with shards := replay w.mem.shards entries } }
+    let w := if entries = [] then w else flushList w (orderBy ord (dirty w.mem.shards))
+    if w.failed then none else some w
+
+/-- recovery stage 3 — `cleanup_archives`, then `load_all_knowledge_graphs`: every shard is read back, the known
+    relations and the logical clock are rebuilt. -/
+def stageFinish (w : World) : Option World :=
+  let w := if (get w.disk .walNew).isSome then emit w .walArchivesUnlinkNew (.unlink .walNew) else w
+  match loadRelations w.disk w.mem.shards with
+  | none => none
+  | some rels =>
+    let known := (rels.filter (fun e => e.2 ≠ [])).map (·.1)
+    let maxUpper := w.mem.shards.foldl (fun a e => max a e.2.md.upper) 0
+    some { w with mem := { w.mem with known := known, clock := maxUpper + 1 } }
+
+/-- `StorageEngine::new` on a disk image: `none` = the engine does not open.  The steps are in `trace`. -/
+def openEngine (d : Disk) (ord : List Name := []) : Option World :=
+  match stageLoad d with
+  | none => none
+  | some w =>
+    match stageReplay w ord with
     | none => none
-    | some entries =>
-      let w := { w with mem := { w.mem with shards := replay w.mem.shards entries } }
-      let w := if entries = [] then w else flushList w (orderBy ord (dirty w.mem.shards))
-      if w.failed then none else
-      let w := if (get w.disk .walNew).isSome then emit w .walArchivesUnlinkNew (.unlink .walNew) else w
-      match loadRelations w.disk w.mem.shards with
-      | none => none
-      | some rels =>
-        let known := (rels.filter (fun e => e.2 ≠ [])).map (·.1)
-        let maxUpper := w.mem.shards.foldl (fun a e => max a e.2.md.upper) 0
-        some { w with mem := { w.mem with known := known, clock := maxUpper + 1 } }
+    | some w => stageFinish w
 
 /-- what the reopened engine serves: non-empty relations with their tuples, sorted by relation name. -/
 def insertRel (e : Name × List Nat) : List (Name × List Nat) → List (Name × List Nat)
